@@ -51,4 +51,14 @@ theorem applied_prefix_agree (c : Cluster) (hg : RaftGuarantees c) (a b : Node) 
     obtain ⟨h1, h2, ht⟩ := applied_terms_agree c hg a b ha hb j (by omega) (by omega)
     exact hg.logMatching a.log b.log (.inl ⟨a, ha, rfl⟩) (.inl ⟨b, hb, rfl⟩) j h1 h2 ht
 
+/-! ## a concrete cluster for the non-vacuity example of Props/C37.lean -/
+
+def demoLog : List LEntry :=
+  [⟨1, .normal (.registerWorker "w1" "a" 4 0 10)⟩, ⟨1, .normal (.connectorCreated "c" "mqtt")⟩]
+
+def demo : Cluster :=
+  { nodes := [⟨demoLog, ⟨2, applyLog {} demoLog⟩⟩, ⟨demoLog, ⟨1, applyLog {} (demoLog.take 1)⟩⟩]
+    leaderLog := fun t => if t = 1 then some demoLog else none
+    committed := fun i t => i < 2 ∧ t = 1 }
+
 end Varpulis.RaftAgree
